@@ -220,11 +220,14 @@ func VerifC14_environment() {
 	fmts := []int{2, 4 + 5, 0, 3, 4 + 4}
 	a := fmts[vfChoice("first", 3)]
 	b := fmts[vfChoice("between", len(fmts))]
+	key := &vfUserKey{9}
+	before := vfSnapshot(t, key)
 	out1, err1 := rs.render(a)
 	rs.render(b)
 	out2, err2 := rs.render(a)
 	vfAssert(vfAnd(err1 == nil, err2 == nil), "render-ok")
 	vfAssert(out1 == out2, "same-bytes-as-first-render")
+	vfSameSnap(before, vfSnapshot(t, key))
 	vfObserveStr("out", out1)
 }
 
